@@ -162,6 +162,11 @@ pub fn on_trans(tc: &TransCtx, sink: &mut Sink) {
         Req::CreateAsk { .. } | Req::CreateBid { .. } => c07_admission(tc, sink),
         Req::ApproveAsk { .. } => c08_approve(tc, sink),
         Req::Modify(m) => c12_modify(tc, m, sink),
+        Req::Migrate(_) => {
+            if tc.out.is_accepted() {
+                sink.c("migrate/accepted-as-a-step-of-a-history");
+            }
+        }
     }
 }
 
@@ -280,7 +285,7 @@ fn named_orders(req: &Req) -> (Option<&str>, Option<&str>) {
         | Req::ExpireBid { id }
         | Req::RejectBid { id, .. } => (None, Some(id)),
         Req::Match { ask_id, bid_id, .. } => (Some(ask_id), Some(bid_id)),
-        Req::Modify(_) => (None, None),
+        Req::Modify(_) | Req::Migrate(_) => (None, None),
     }
 }
 
@@ -407,7 +412,8 @@ fn c11_frame(tc: &TransCtx, post: &Book, sink: &mut Sink) {
     let (aid, bid) = named_orders(&tc.act.req);
     let named_a = aid.map(ask_key);
     let named_b = bid.map(bid_key);
-    let is_modify = matches!(tc.act.req, Req::Modify(_));
+    let is_migrate = matches!(tc.act.req, Req::Migrate(_));
+    let is_modify = matches!(tc.act.req, Req::Modify(_)) || is_migrate;
     let mut keys: BTreeSet<&Vec<u8>> = pre_s.keys().collect();
     keys.extend(post_s.keys());
     for k in keys {
@@ -429,6 +435,9 @@ fn c11_frame(tc: &TransCtx, post: &Book, sink: &mut Sink) {
         } else if k.starts_with(BID_PREFIX) {
             "other-bid"
         } else if k.as_slice() == KEY_VERSION {
+            if is_migrate {
+                continue;
+            }
             "version-record"
         } else {
             "foreign-key"
@@ -484,13 +493,14 @@ fn c11_frame(tc: &TransCtx, post: &Book, sink: &mut Sink) {
     }
     // C12 clause: market parameters cannot be changed by any execute request
     if let (Some(p), Some(q)) = (&tc.st.book.info, &post.info) {
-        if p.name != q.name
+        if !is_migrate
+            && (p.name != q.name
             || p.bind_name != q.bind_name
             || p.base_denom != q.base_denom
             || p.convertible_base_denoms != q.convertible_base_denoms
             || p.supported_quote_denoms != q.supported_quote_denoms
             || p.price_precision != q.price_precision
-            || p.size_increment != q.size_increment
+            || p.size_increment != q.size_increment)
         {
             sink.v("C12", format!("C12/market-parameters-changed/{kind}"), format!("{p:?} -> {q:?}"));
         }
@@ -649,7 +659,7 @@ fn c05_authorization(tc: &TransCtx, sink: &mut Sink) {
         | Req::RejectBid { .. }
         | Req::Modify(_) => info.is_executor(s),
         Req::ApproveAsk { .. } => info.is_approver(s),
-        Req::CreateAsk { .. } | Req::CreateBid { .. } => return,
+        Req::CreateAsk { .. } | Req::CreateBid { .. } | Req::Migrate(_) => return,
     };
     sink.cs(format!("C05/accepted-guarded/{kind}"));
     if !ok {
@@ -1932,6 +1942,9 @@ fn shadow_apply(mut s: Shadow, a: &Accepted) -> Result<Shadow, String> {
 
 fn c17_attributes(tc: &TransCtx, a: &Accepted, post: &Book, sink: &mut Sink) {
     let kind = tc.act.req.kind();
+    if kind == "migrate" {
+        return; // C17 speaks about execute responses
+    }
     let book = &tc.st.book;
     sink.c("C17/responses-checked");
     match attr(a, "action") {
@@ -2053,7 +2066,7 @@ fn c17_attributes(tc: &TransCtx, a: &Accepted, post: &Book, sink: &mut Sink) {
                 }
             }
         }
-        Req::Modify(_) => {}
+        Req::Modify(_) | Req::Migrate(_) => {}
     }
     // attribute-driven shadow book
     match shadow_apply(shadow_of(book), a) {
